@@ -227,13 +227,120 @@ def _block_slices(ctx):
     return n
 
 
+rule("C06.n", "an offset into a block of per-step variables that comes from a *duration* (length of a start / shutdown ramp, remaining start "
+              "ramp, runtime) stays inside the horizon: a loop `for k in range(<duration>)` that addresses column <block> + k is cut at the number "
+              "of steps (min(.., self.n) / a break on the horizon), and a number of rows `self.n - <offset>` is computed from a clamped offset - "
+              "the block is followed by other variables, and a horizon may be shorter than any duration", floor=3, props=["C06", "C07"])
+
+HORIZON_TOKENS = ("self.n", ".T", ".shape", "len(")
+
+
+def _horizon_bounded(txt: str) -> bool:
+    t = txt.replace(" ", "")
+    return any(k in t for k in HORIZON_TOKENS)
+
+
+def _duration_offsets(ctx):
+    p = ctx.p
+    n = 0
+    for fn in sorted(p.all_functions(), key=lambda f: f.qualname):
+        if fn.parent is not None or fn.cls is None or not p.is_subclass(fn.cls, "CHPAsset"):
+            continue
+        # ---- (1) loops over a duration
+        for lp in [s0 for s0 in au.walk_stmts(fn.body) if isinstance(s0, ast.For)]:
+            if not (isinstance(lp.target, ast.Name) and isinstance(lp.iter, ast.Call) and au.call_name(lp.iter) == "range" and lp.iter.args):
+                continue
+            v = lp.target.id
+            stop = lp.iter.args[0] if len(lp.iter.args) == 1 else lp.iter.args[1]
+            stop_r = ctx.resolve(fn, stop, lp)
+            if _horizon_bounded(au.U(stop)) or _horizon_bounded(au.U(stop_r)) or au.const_num(stop_r) is not None:
+                continue
+            ev = lf.LinEval(lambda e: au.U(e) if isinstance(e, (ast.Name, ast.Attribute)) else None)
+            for st in au.walk_stmts(lp.body):
+                if not isinstance(st, (ast.Assign, ast.AugAssign)):
+                    continue
+                for t0 in au.stmt_targets(st):
+                    if not isinstance(t0, ast.Subscript):
+                        continue
+                    idx = t0.slice.elts[-1] if isinstance(t0.slice, ast.Tuple) and t0.slice.elts else t0.slice
+                    if isinstance(idx, ast.Slice):
+                        continue
+                    f = ev.ev(idx)
+                    if f is None or not f.get(v):
+                        continue
+                    coef = f[v]
+                    # guards: ifs on the loop variable that enclose the store, or precede it (in a list on the way up to the loop) and leave the pass
+                    guards = []
+                    child = st
+                    for a in p.ancestors(st):
+                        lst = None
+                        for fld in ("body", "orelse"):
+                            if any(child is b0 for b0 in getattr(a, fld, []) or []):
+                                lst = getattr(a, fld)
+                        if lst is not None:
+                            for b0 in lst:
+                                if b0 is child:
+                                    break
+                                if isinstance(b0, ast.If) and v in au.names_in(b0.test) and b0.body and isinstance(b0.body[-1], (ast.Continue, ast.Break, ast.Return, ast.Raise)):
+                                    guards.append(b0.test)
+                        if isinstance(a, ast.If) and v in au.names_in(a.test) and a is not lp:
+                            guards.append(a.test)
+                        if a is lp:
+                            break
+                        child = a
+                    if coef > 0:
+                        ok = any(_horizon_bounded(au.U(g)) for g in guards)
+                    else:
+                        ok = bool(guards)
+                    n += 1
+                    ctx.ob("C06.n", fn, "%s in `for %s in range(%s)`" % (au.short(t0, 50), v, au.short(stop, 40)), ok,
+                           "the loop runs over %s - a duration (%s), not a number of steps of the horizon - and addresses %s without a test against the "
+                           "%s: on a horizon shorter than the duration the index leaves its block of per-step variables and lands in the variables "
+                           "that follow (the bound of a start ramp in progress is imposed on an on / start variable) or beyond the last column "
+                           "(IndexError / ValueError in the set-up)" % (au.short(stop, 40), au.short(stop_r, 60), au.short(idx, 40),
+                                                                      "number of steps" if coef > 0 else "first step"),
+                           node=st, ok_detail="guarded by %s" % "; ".join(sorted({au.short(g, 40) for g in guards})[:2]))
+        # ---- (2) numbers of rows self.n - <offset>
+        seen = set()
+        for st in au.walk_stmts(fn.body):
+            for x in au.walk_own(st):
+                if not (isinstance(x, ast.BinOp) and isinstance(x.op, ast.Sub) and au.U(x.left).replace(" ", "") in ("self.n", "self.timegrid.restricted.T")
+                        and isinstance(x.right, ast.Name)):
+                    continue
+                par = p.parent(x)
+                is_count = (isinstance(par, ast.BinOp) and isinstance(par.op, ast.Mult)) or (isinstance(par, ast.Call) and au.method_name(par) in ("zeros", "ones", "full", "empty", "lil_matrix", "tile", "repeat"))
+                if not is_count:
+                    continue
+                ds = [d for d in ctx.flow(fn).defs(x.right.id, st) if d.kind == "assign" and d.value is not None]
+                key = (x.right.id, tuple(sorted(au.U(d.value) for d in ds)))
+                if not ds or key in seen:
+                    continue
+                seen.add(key)
+
+                def arms(e):
+                    if isinstance(e, ast.IfExp):
+                        return arms(e.body) + arms(e.orelse)
+                    return [e]
+                loose = [a for d in ds for a in arms(d.value) if au.const_num(a) is None and not (
+                    isinstance(a, ast.Call) and au.method_name(a) == "min" and _horizon_bounded(au.U(a)))]
+                n += 1
+                ctx.ob("C06.n", fn, "number of rows %s" % au.short(x, 40), not loose,
+                       "%s = %s can exceed the number of steps (a start ramp that is still in progress may last longer than the horizon): "
+                       "%s is negative then - np.zeros raises 'negative dimensions are not allowed', and 'L' * n silently adds no letters while "
+                       "the rows are sliced from an offset beyond the end" % (x.right.id, au.short(loose[0], 60) if loose else "", au.short(x, 30)),
+                       node=st, ok_detail="offset clamped with min(.., number of steps)", key="rows from a clamped offset: %s" % fn.name)
+    return n
+
+
 rule("C06.m", "an aggregated implication row (+1 on a slice of k boolean variables, -c on one boolean variable, >= 0: 'if y then all of the "
               "slice') has c <= k for every pass of the loop that builds it - checked at the first and the last pass, where slices are cut "
               "by the horizon", floor=1)
 
 
-@analysis("chp", ["C06.a", "C06.b", "C06.c", "C06.h", "C06.i", "C06.k", "C06.m"])
+@analysis("chp", ["C06.a", "C06.b", "C06.c", "C06.h", "C06.i", "C06.k", "C06.m", "C06.n"])
 def run(ctx):
+    n_n = _duration_offsets(ctx)
+    ctx.require(n_n >= 3, "fewer than 3 duration-driven offsets found in the CHP classes", rules=["C06.n"])
     _ramp_in_progress(ctx)
     _first_step_rows(ctx)
     n_h = _block_slices(ctx)
